@@ -8,6 +8,7 @@ package main
 import (
 	"errors"
 	"fmt"
+	"reflect"
 	"strconv"
 	"strings"
 
@@ -66,6 +67,7 @@ type Node struct {
 	Ty int     `json:"ty,omitempty"` // Go number type tag (Values.v ty_*)
 	Bv bool    `json:"bv,omitempty"`
 	F  float64 `json:"f,omitempty"`
+	F2 float64 `json:"f2,omitempty"` // imaginary part (Ty 22 complex64, 23 complex128)
 	// stack / cond configuration
 	A      string     `json:"a,omitempty"` // akind: "", "aval", "aptr", "avalstr", "aptrstr"
 	Kind   string     `json:"kind,omitempty"`
@@ -258,8 +260,13 @@ func (n *Node) Build() any {
 	case "bool":
 		return n.Bv
 	case "float":
-		if n.Ty == 20 {
+		switch n.Ty {
+		case 20:
 			return float32(n.F)
+		case 22:
+			return complex64(complex(n.F, n.F2))
+		case 23:
+			return complex(n.F, n.F2)
 		}
 		return n.F
 	case "stack":
@@ -283,6 +290,12 @@ func (n *Node) Build() any {
 			pa := &a
 			return &pa
 		}
+		if d, al, ok := ptrKind(n.A); ok {
+			if al {
+				return ptrChain(aStack(s), d)
+			}
+			return ptrChain(s, d)
+		}
 		return s
 	case "cond":
 		c := n.BuildCond()
@@ -304,6 +317,12 @@ func (n *Node) Build() any {
 			a := aCond(c)
 			pa := &a
 			return &pa
+		}
+		if d, al, ok := ptrKind(n.A); ok {
+			if al {
+				return ptrChain(aCond(c), d)
+			}
+			return ptrChain(c, d)
 		}
 		return c
 	case "zstack":
@@ -333,7 +352,51 @@ func (n *Node) Build() any {
 var extraBuild = map[string]func(*Node) any{}
 var extraCoq = map[string]func(*Node) string{}
 
+// ptrKind reads the node forms "pN" / "pNa": a chain of N (3..9) non-nil
+// pointers ending in the native instance / in the plain alias of it.
+func ptrKind(a string) (depth int, alias bool, ok bool) {
+	if len(a) < 2 || a[0] != 'p' || a[1] < '3' || a[1] > '9' {
+		return 0, false, false
+	}
+	switch a[2:] {
+	case "":
+		return int(a[1] - '0'), false, true
+	case "a":
+		return int(a[1] - '0'), true, true
+	}
+	return 0, false, false
+}
+
+// ptrChain wraps v in depth pointers.
+func ptrChain(v any, depth int) any {
+	rv := reflect.ValueOf(v)
+	for i := 0; i < depth; i++ {
+		p := reflect.New(rv.Type())
+		p.Elem().Set(rv)
+		rv = p
+	}
+	return rv.Interface()
+}
+
+// unchain strips the pointers of a chain of two or more down to the value
+// at its end; (v, 0) for anything else (nil links included).
+func unchain(v any) (any, int) {
+	rv := reflect.ValueOf(v)
+	d := 0
+	for rv.IsValid() && rv.Kind() == reflect.Ptr && !rv.IsNil() {
+		rv = rv.Elem()
+		d++
+	}
+	if d < 2 || !rv.IsValid() || rv.Kind() == reflect.Ptr || !rv.CanInterface() {
+		return v, 0
+	}
+	return rv.Interface(), d
+}
+
 func coqAkind(a string) string {
+	if _, _, ok := ptrKind(a); ok {
+		return "AliasPtr" // the models do not tell pointer depths apart
+	}
 	switch a {
 	case "aval":
 		return "AliasVal"
@@ -384,6 +447,31 @@ func (n *Node) CoqCfg() string {
 	return cfg
 }
 
+// floatText is the text Go itself gives the number at its own precision.
+func (n *Node) floatText(ty int) string {
+	switch ty {
+	case 22:
+		return strconv.FormatComplex(complex128(complex64(complex(n.F, n.F2))), 'g', -1, 64)
+	case 23:
+		return strconv.FormatComplex(complex(n.F, n.F2), 'g', -1, 128)
+	}
+	return fmtFloat(n.F, ty)
+}
+
+// numLeaf: float and complex leaves of every width, most with parts that are
+// not exactly representable in binary (the text then depends on the width)
+func numLeaf(r *Rng) *Node {
+	switch x := r.Intn(10); {
+	case x < 5:
+		return &Node{T: "float", Ty: 21, F: []float64{1.5, 0, -2.25, 1e21, 3, 0.1}[r.Intn(6)]}
+	case x < 7:
+		return &Node{T: "float", Ty: 20, F: []float64{0.1, 1.5, -0.3, 16777216}[r.Intn(4)]}
+	case x < 9:
+		return &Node{T: "float", Ty: 22, F: []float64{0.1, 1.1, 1, -0.3}[r.Intn(4)], F2: []float64{0.2, 2, 0, -1.1}[r.Intn(4)]}
+	}
+	return &Node{T: "float", Ty: 23, F: []float64{0.1, 2}[r.Intn(2)], F2: []float64{0.2, 3}[r.Intn(2)]}
+}
+
 func fmtFloat(f float64, ty int) string {
 	if ty == 20 {
 		return strconv.FormatFloat(float64(float32(f)), 'g', -1, 32)
@@ -410,7 +498,7 @@ func (n *Node) Coq() string {
 		if ty == 0 {
 			ty = 21
 		}
-		return fmt.Sprintf("(VLeaf (GFloat %d%%N %s 0))", ty, coqBytes(fmtFloat(n.F, ty)))
+		return fmt.Sprintf("(VLeaf (GFloat %d%%N %s 0))", ty, coqBytes(n.floatText(ty)))
 	case "stack":
 		var es []string
 		for _, e := range n.Els {
@@ -480,7 +568,7 @@ func (g *TreeGen) Leaf() *Node {
 	case "bool":
 		return &Node{T: "bool", Bv: g.R.Bool()}
 	case "float":
-		return &Node{T: "float", Ty: 21, F: []float64{1.5, 0, -2.25, 1e21, 3}[g.R.Intn(5)]}
+		return numLeaf(g.R)
 	case "nil":
 		return &Node{T: "nil"}
 	}
